@@ -1,4 +1,4 @@
-package main
+package embx
 
 // removed: the path of vm.generateEmbeddedReceive for "a method is deleted in a spork and someone calls it before
 // the spork" (ErrContractMethodNotFound at receive time): the call must be refunded, not crash the producer.
@@ -17,7 +17,7 @@ import (
 	"github.com/zenon-network/go-zenon/wallet"
 )
 
-func runRemoved(rng *rand.Rand, n int, out *Out, _ []string) {
+func RunRemoved(rng *rand.Rand, n int, out *Out, _ []string) {
 	shortenConstants()
 	type call struct {
 		c      types.Address
